@@ -30,6 +30,21 @@ WORDS = ["hello", "yes", "no", "red", "blue", "7", "a b", "x;y", "p|q", "back\\s
 SIMPLE = ["alpha", "beta", "gamma", "delta", "one", "two", "3", "yes", "no"]
 MARKUP_WORDS = ["Tom & Jerry", "a<b", "Mr O'Neil", 'say "hi"', "x>y", "<b>bold</b>", "R&D"]
 
+# Words that are ALSO names the tool invents or reserves (documentation of the sheet format and of RapidPro flows): the
+# category of the default branch ("Other"; "All Responses" in the RapidPro editor), of the timeout branch ("No Response"),
+# of the outcome branches (Complete/Expired, Success/Failure) and the words that select those branches in a condition
+# cell, the names of unnamed buckets ("Bucket <n>"), `start` (an edge from nowhere), the marker of a hard exit, and the
+# text of a missing group uuid ("None", joined to the group name by "_" in a generated category name).  A user can write
+# any of them as a condition value, a category name, a row id, a result / field name or a group name (Gen(collide=True)).
+RESERVED = ["Other", "No Response", "All Responses", "Success", "Failure", "Complete", "Completed", "Expired",
+            "Bucket 1", "Bucket 2", "Bucket 3", "None", "start", "HARD_EXIT"]
+RESERVED_CATEGORY_NAMES = ["Other", "No Response", "All Responses", "Success", "Failure", "Complete", "Expired"]
+
+
+def case_variant(rng, w):
+    """the word in one of the capitalisations a user may write it in"""
+    return rng.choice([w, w, w.lower(), w.lower(), w.upper(), w.title(), w.capitalize(), w.swapcase()])
+
 
 def esc(s):
     return s.replace("\\", "\\\\").replace("|", "\\|").replace(";", "\\;")
@@ -193,8 +208,21 @@ class Gen:
     names an earlier row, at most one default continuation per row, distinct (test,args)
     per decision, one operand per decision, distinct category names per decision."""
 
-    def __init__(self, rng, wf=True, special_text=True, prefix="", has_group=False, clash_names=False):
+    def __init__(self, rng, wf=True, special_text=True, prefix="", has_group=False, clash_names=False, collide=False):
         self.rng = rng
+        # collide: the words of the sheet (condition values, explicit category names, group names, bucket names, row
+        # ids, result / field names) come from a SMALL per-sheet vocabulary that holds names the tool invents or
+        # reserves (RESERVED) in every capitalisation, so that they meet the invented names and one another: "other"
+        # next to the default branch, "yes" / "YES" / "Yes" in one decision, a category called "Yes" before a test for
+        # "yes", a group called "Other", a value "none_other" next to a has_group test for "other", "Bucket 3" as the
+        # first bucket ...  An explicit name that IS the name of an existing category of the decision (the open finding
+        # category-name-clash) is written only with clash_names.  No draw is made when collide is off.
+        self.collide = collide
+        self.tags = {}       # what the collide mode wrote (distribution, for the evidence)
+        self.used_ids = set()
+        if collide:
+            k = rng.choice([1, 1, 2, 2, 3])
+            self.vocab = [rng.choice(["Other"] * 6 + RESERVED[:8] * 2 + RESERVED + ["yes", "no", "a b", "7"]) for _ in range(k)]
         self.clash_names = clash_names  # now and then an explicit category name that another category of the decision has
                                         # already: the name invented for an earlier unnamed test, "Other", "No Response"
         self.has_group = has_group      # also write has_group tests (group membership by group NAME) on edges of rows
@@ -212,6 +240,12 @@ class Gen:
 
     def fresh_id(self, p="r"):
         self.n += 1
+        if self.collide and self.rng.random() < 0.25:
+            rid = self.prefix + case_variant(self.rng, self.rng.choice(RESERVED + self.vocab))
+            if rid not in self.used_ids:
+                self.used_ids.add(rid)
+                self.tag("row id that is an invented / reserved name" + (" (`start` itself: nothing can name the row)" if rid == "start" else ""))
+                return rid
         return f"{self.prefix}{p}{self.n}"
 
     def text(self):
@@ -224,9 +258,58 @@ class Gen:
     def simple(self):
         return self.rng.choice(SIMPLE)
 
+    def tag(self, t):
+        self.tags[t] = self.tags.get(t, 0) + 1
+
+    # -- collide mode: words that meet the names the tool invents ---------------------------------------------
+    def cword(self):
+        """a word of the sheet's vocabulary in some capitalisation, now and then in a derived form the tool's naming
+        rule produces itself (`_alt` appended to a taken name, `None_` before a group name)"""
+        r = self.rng
+        w = case_variant(r, r.choice(self.vocab))
+        x = r.random()
+        if x < 0.12:
+            w = w + r.choice(["_alt", "_Alt", "_alt_alt"])
+        elif x < 0.2:
+            w = r.choice(["none_", "None_"]) + w
+        return w
+
+    def cvalue(self):
+        """a condition value"""
+        if self.collide and self.rng.random() < 0.8:
+            return self.cword()
+        return self.word()
+
+    def gname(self):
+        """a group name"""
+        if self.collide and self.rng.random() < 0.5:
+            self.tag("group named like an invented / reserved name")
+            return self.cword()
+        return self.simple() + " group"
+
+    def sname(self, prefix):
+        """a result / field name"""
+        if self.collide and self.rng.random() < 0.3:
+            self.tag("result or field named like an invented / reserved name")
+            return case_variant(self.rng, self.rng.choice(RESERVED[:8]))
+        return prefix + " " + self.simple()
+
+    @staticmethod
+    def auto_name(inf, args):
+        """the name the documented rule invents for an unnamed test: the arguments title-cased and joined by "_",
+        "_alt" appended while a category of the decision has that name"""
+        nm = "_".join(str(a).title() for a in args)
+        while nm in inf["catnames"]:
+            nm += "_alt"
+        return nm
+
     def new_info(self, t, **kw):
         d = {"type": t, "has_default": False, "tests": set(), "names": set(), "var": None}
         d.update(kw)
+        # the category names of the decision as the documented naming rule gives them (collide mode keeps an explicit
+        # name apart from them unless clash_names asks for the clash)
+        d["catnames"] = {"Other", "No Response"}
+        d["titles"] = {}
         return d
 
     # -- an edge condition legal for a source row (None: nothing more may leave it) ----------
@@ -237,7 +320,7 @@ class Gen:
         if t in ACTION_TYPES:
             if not inf["has_default"] and (inf.get("no_cases") or r.random() < 0.6):
                 inf["has_default"] = True
-                return edge()
+                return self.default_edge(inf)
             if inf.get("no_cases"):
                 return None
             if inf["var"] is None:
@@ -247,20 +330,20 @@ class Gen:
             x = r.random()
             if inf.get("timeout") and not inf.get("noresp") and x < 0.25:
                 inf["noresp"] = True
-                return edge(value=r.choice(["no response", "No Response"]))
+                return edge(value=r.choice(["no response", "No Response"] + (["NO RESPONSE", "no Response"] if self.collide else [])))
             if not inf["has_default"] and x < 0.5:
                 inf["has_default"] = True
-                return edge()
+                return self.default_edge(inf)
             return self.case_cond(inf, "")
         if t == "split_by_value":
             if not inf["has_default"] and r.random() < 0.35:
                 inf["has_default"] = True
-                return edge()
+                return self.default_edge(inf)
             return self.case_cond(inf, r.choice(["", "", "@ignored.variable"]) if not self.wf else "")
         if t == "no_op_dec":
             if inf["var"] is not None and not inf["has_default"] and r.random() < 0.35:
                 inf["has_default"] = True
-                return edge()
+                return self.default_edge(inf)
             first = inf["var"] is None
             if first:
                 inf["var"] = "@fields." + self.simple()
@@ -273,31 +356,65 @@ class Gen:
         if t == "split_by_group":
             if not inf["has_default"] and r.random() < 0.4:
                 inf["has_default"] = True
-                return edge()
-            g = self.simple() + " group"
+                return self.default_edge(inf)
+            g = self.gname()
             if g in inf["tests"]:
                 return None
             inf["tests"].add(g)
-            return edge(value=g)
+            return self.named(inf, edge(value=g), [None, g])
         if t == "split_random":
             name = f"b{len(inf['tests']) + 1}"
+            if self.collide:
+                # a bucket the sheet does not name (the tool calls it "Bucket <number of buckets + 2>"), or one the sheet
+                # calls so itself.  bnames: the bucket names so far, by that rule; a name that IS another bucket's name
+                # (finding bucket-name-clash: the invented name does not avoid a name the sheet gave, an explicit name
+                # takes over the bucket that was given the same invented name) is written only with clash_names
+                bn = inf.setdefault("bnames", [])
+                if r.random() < 0.6:
+                    name = r.choice(["", "", case_variant(r, "Bucket %d" % (len(bn) + r.choice([1, 2, 2, 3, 4])))])
+                auto = "Bucket %d" % (len(bn) + 2)
+                if (auto if name == "" else name) in bn and not self.clash_names:
+                    name = f"b{len(inf['tests']) + 1}"
+                if name == "":
+                    self.tag("bucket without a name" + (" whose invented name is another bucket's name (clash)" if auto in bn else
+                             " after a bucket the sheet calls `Bucket <n>`" if any(x.startswith("Bucket ") for x in bn) else ""))
+                    if auto not in bn:
+                        bn.append(auto)
+                    inf["tests"].add(f"\0{len(inf['tests'])}")
+                    return edge()
+                if name.lower().startswith("bucket "):
+                    self.tag("bucket named like an invented bucket name" + (" that another bucket has (clash)" if name in bn else ""))
+                if name not in bn:
+                    bn.append(name)
+                if r.random() < 0.3:
+                    inf["tests"].add(name)
+                    return edge(value=f"b{len(inf['tests'])}", name=name)
             inf["tests"].add(name)
             return edge(value=name)
         if t == "start_new_flow":
             opts = [o for o in ("completed", "expired") if o not in inf["tests"]]
+            if self.collide and r.random() < 0.25:
+                return self.foreign_outcome(("complete", "completed", "expired"))
             if not opts:
                 return None
             o = r.choice(opts)
             inf["tests"].add(o)
+            if self.collide:
+                return edge(value=case_variant(r, r.choice(["completed", "complete"]) if o == "completed" else "expired"),
+                            name=r.choice(["", "", case_variant(r, r.choice(RESERVED_CATEGORY_NAMES))]))
             return edge(value=r.choice(["completed", "Complete", "complete", "Completed"]) if o == "completed" else r.choice(["expired", "Expired"]))
         if t in ("call_webhook", "transfer_airtime"):
             opts = [o for o in ("success", "failure") if o not in inf["tests"]]
+            if self.collide and r.random() < 0.25:
+                return self.foreign_outcome(("success", "failure"))
             if not opts:
                 return None
             o = r.choice(opts)
             inf["tests"].add(o)
             if o == "failure" and r.random() < 0.5:
                 return edge()
+            if self.collide:
+                return edge(value=case_variant(r, o), name=r.choice(["", "", case_variant(r, r.choice(RESERVED_CATEGORY_NAMES))]))
             return edge(value=r.choice([o, o.title()]))
         if t == "block":
             if inf["has_default"]:
@@ -306,25 +423,75 @@ class Gen:
             return edge()
         return None
 
+    def default_edge(self, inf):
+        if self.collide and any(t == "Other" for t in inf["titles"].values()):
+            self.tag("default edge written AFTER an unnamed test whose value title-cases to Other")
+        inf["default_written"] = True
+        return edge()
+
+    def foreign_outcome(self, own):
+        """an edge from an outcome row whose value is a reserved word of ANOTHER kind of row (not an outcome of this
+        row: ignored, with an error in the log)"""
+        r = self.rng
+        w = case_variant(r, r.choice([x for x in RESERVED if x.lower() not in own]))
+        self.tag("outcome row: edge with a reserved word that is not one of its outcomes")
+        return edge(value=w)
+
+    def named(self, inf, e, args):
+        """book-keeping of the category names of a decision (what the documented naming rule invents for an unnamed
+        test); in collide mode an unnamed test may get an explicit name that collides in spelling - not in identity -
+        with invented names"""
+        r = self.rng
+        if self.collide and not e["name"] and r.random() < 0.3:
+            x = r.random()
+            if x < 0.4:
+                cand = case_variant(r, r.choice(RESERVED_CATEGORY_NAMES))       # "other", "OTHER", "No response", ...
+            elif x < 0.8:
+                cand = r.choice(self.vocab).title()                                # what a test for that word is called
+                if r.random() < 0.3:
+                    cand = "None_" + cand
+            else:
+                cand = r.choice(sorted(inf["catnames"])) + "_alt"                  # what the next clash would be called
+            if r.random() < 0.15:
+                cand += "_alt"
+            if cand not in inf["catnames"] or cand in inf["names"]:
+                e["name"] = cand
+                inf["names"].add(cand)
+                self.tag("explicit category name spelt like an invented / reserved name (no category of the decision has it)")
+        if e["name"]:
+            inf["catnames"].add(e["name"])
+        else:
+            nm = self.auto_name(inf, args)
+            base = "_".join(str(a).title() for a in args)
+            if self.collide:
+                if nm != base:
+                    self.tag("unnamed test whose invented name is taken (`_alt`): " + ("by an explicit name" if base in inf["names"] else
+                             "by the default / No Response category" if base in ("Other", "No Response") else "by another invented name"))
+                if base == "Other":
+                    self.tag("unnamed test whose value title-cases to Other, default edge " + ("written before" if inf.get("default_written") else "not yet written"))
+            inf["catnames"].add(nm)
+            inf["titles"][(e["ctype"], e["value"])] = base
+        return e
+
     def case_cond(self, inf, var):
         r = self.rng
         ctype = r.choice(["", "", ""] + TEST_TYPES_OK)
         if self.has_group and r.random() < 0.15:
             ctype = "has_group"
         if ctype == "has_group":
-            value = self.simple() + " group"
+            value = self.gname()
         elif ctype in NO_ARG_TESTS:
             # tests without arguments are usually written with a blank value: the edge is still conditional
             value = r.choice(["", "", "x"])
         else:
-            value = self.word()
+            value = self.cvalue()
         key = (ctype or "has_any_word", "" if ctype in NO_ARG_TESTS else value)
         if key in inf["tests"] or (ctype in NO_ARG_TESTS and any(k[0] == ctype for k in inf["tests"] if isinstance(k, tuple))):
             if self.wf:
                 return None
         inf["tests"].add(key)
         name = ""
-        if r.random() < 0.4:
+        if r.random() < (0.4 if not self.collide else 0.15):
             name = "Cat " + r.choice(["Yes", "No", "Maybe", self.simple()])
             if self.wf and name in inf["names"]:
                 name = name + " " + str(len(inf["names"]))
@@ -336,7 +503,7 @@ class Gen:
         if self.clash_names and r.random() < 0.08:
             taken = ["Other", "No Response"] + [k[1].title() for k in sorted(inf["tests"], key=repr) if isinstance(k, tuple) and k[1] and k[1] != value]
             name = r.choice(taken)
-        return edge(value=value, variable=var, ctype=ctype, name=name)
+        return self.named(inf, edge(value=value, variable=var, ctype=ctype, name=name), [None, value] if ctype == "has_group" else [value])
 
     # -- rows -----------------------------------------------------------------------------
     def node_row(self, t, rid):
@@ -353,9 +520,9 @@ class Gen:
                 row["attachments"] = ["image:http://y/" + self.simple()]
         elif t == "save_value":
             row["arg"] = self.word()
-            row["save_name"] = "field " + self.simple()
+            row["save_name"] = self.sname("field")
         elif t in ("add_to_group", "remove_from_group", "split_by_group"):
-            g = self.simple() + " group"
+            g = self.gname()
             if g not in self.groups:
                 self.groups[g] = new_uuid(r) if r.random() < 0.3 else ""
             row["arg"] = [g]
@@ -363,9 +530,9 @@ class Gen:
                 row["obj_id"] = self.groups[g]
         elif t == "save_flow_result":
             row["arg"] = self.word()
-            row["save_name"] = "result " + self.simple()
+            row["save_name"] = self.sname("result")
             if r.random() < 0.3:
-                row["result_category"] = "cat " + self.simple()
+                row["result_category"] = self.sname("cat")
         elif t.startswith("set_contact_"):
             row["arg"] = {"set_contact_language": "eng", "set_contact_name": "Name " + self.simple(),
                           "set_contact_status": "active", "set_contact_timezone": "Africa/Nairobi"}[t]
@@ -375,14 +542,14 @@ class Gen:
                 row["urn_scheme"] = r.choice(["tel", "whatsapp", "mailto"])
         elif t == "wait_for_response":
             if r.random() < 0.4:
-                row["save_name"] = "ans " + self.simple()
+                row["save_name"] = self.sname("ans")
             if r.random() < 0.4:
                 row["no_response"] = str(r.choice([60, 300, 3600]))
                 inf["timeout"] = True
         elif t == "split_by_value":
             row["arg"] = "@fields." + self.simple()
             if r.random() < 0.3:
-                row["save_name"] = "res " + self.simple()
+                row["save_name"] = self.sname("res")
         elif t == "start_new_flow":
             row["arg"] = "flow " + self.simple()
             names = [k for k in self.groups if not k.startswith("flow:")]
@@ -400,10 +567,10 @@ class Gen:
             row["webhook_url"] = "http://hook/" + self.simple()
             row["webhook_method"] = r.choice(["", "GET", "POST", "PUT"])
             row["webhook_headers"] = [["H" + str(i), self.simple()] for i in range(r.choice([0, 1, 2]))]
-            row["save_name"] = "hook " + self.simple()
+            row["save_name"] = self.sname("hook")
         elif t == "transfer_airtime":
             row["arg"] = [["KES", "10"], ["USD", "1.5"]][: r.choice([1, 2])]
-            row["save_name"] = "air " + self.simple()
+            row["save_name"] = self.sname("air")
         if t in ACTION_TYPES and r.random() < 0.5:
             inf["no_cases"] = True
         if r.random() < 0.25:
@@ -438,19 +605,22 @@ class Gen:
         r = self.rng
         x = r.random()
         if first or x < 0.72:
-            t = r.choice(ACTION_TYPES[:5] * 3 + ACTION_TYPES + DECISION_TYPES * 3 + OUTCOME_TYPES)
+            t = r.choice(ACTION_TYPES[:5] * 3 + ACTION_TYPES + DECISION_TYPES * 3 + OUTCOME_TYPES
+                         + (DECISION_TYPES * 5 + DECISION_TYPES[:2] * 4 if self.collide else []))    # collide: names meet in decisions
             rid = self.fresh_id()
             row, inf = self.node_row(t, rid)
             if first:
                 row["edges"] = [edge("start")]
             else:
-                row["edges"] = self.incoming(r.choice([1, 1, 1, 1, 2, 2, 3]))
+                row["edges"] = self.incoming(r.choice([1, 1, 1, 1, 2, 2, 3] if not self.collide else [1, 2, 2, 3, 3, 4]))
                 if not row["edges"]:
                     return False
             key = rid
             if r.random() < 0.12 and not first:
                 row["row_id"] = ""
                 key = "\0" + rid
+            elif rid == "start":
+                key = "\0" + rid        # `from start` is an edge from nowhere: no edge can name this row
             else:
                 self.order.append(key)
             self.info[key] = inf
@@ -492,10 +662,59 @@ class Gen:
         return self.rows
 
 
-def gen_core_sheet(rng, n_rows, wf=True, special_text=True, has_group=False, clash_names=False):
-    g = Gen(rng, wf=wf, special_text=special_text, has_group=has_group, clash_names=clash_names)
+def gen_core_sheet(rng, n_rows, wf=True, special_text=True, has_group=False, clash_names=False, collide=False):
+    g = Gen(rng, wf=wf, special_text=special_text, has_group=has_group, clash_names=clash_names, collide=collide)
     rows = g.generate(n_rows)
     return rows, g
+
+
+def gen_star_sheet(rng, n_edges, clash_names=False):
+    """ONE decision and n_edges edges leaving it, written in collide mode with a vocabulary of one or two words: what
+    FlowParser does with such a sheet is a sequence of add_exit calls on one long-lived node group, so the names the
+    tool invented for the earlier edges are the history every later edge meets.  The decision is a wait (with or
+    without timeout), a value / group / random split, an action row (implicit router), a no_op decision or an outcome
+    row; every edge leads to a row of its own (a message), now and then to an earlier one (go_to) or to an exit.
+    Every prefix rows[:k] (k >= the index returned) is a sheet in its own right: the state after k - 1 edges."""
+    g = Gen(rng, wf=True, special_text=False, has_group=rng.random() < 0.4, clash_names=clash_names, collide=True)
+    g.vocab = g.vocab[:rng.choice([1, 1, 2])]
+    t = rng.choice(["wait_for_response"] * 3 + ["split_by_value"] * 2 + ["split_by_group", "split_random", "send_message", "no_op",
+                    "start_new_flow", "call_webhook"])
+    if t == "no_op":
+        first, inf0 = g.node_row("send_message", "r0")
+        first["edges"] = [edge("start")]
+        first.pop("node_uuid", None)
+        rows = [first, {"type": "no_op", "row_id": "d", "edges": [edge("r0")]}]
+        src = "d"
+        g.info[src] = g.new_info("no_op_dec")
+    else:
+        row, inf = g.node_row(t, "d")
+        row["edges"] = [edge("start")]
+        row.pop("node_uuid", None)
+        inf["no_cases"] = False
+        rows = [row]
+        src = "d"
+        g.info[src] = inf
+    g.order = [src]
+    g.tag("star: " + t)
+    base = len(rows)
+    msgs = []
+    tries = 0
+    while len(rows) - base < n_edges and tries < n_edges * 6:
+        tries += 1
+        c = g.cond_from(src)
+        if c is None:
+            continue
+        c["from"] = src
+        x = rng.random()
+        if x < 0.1 and msgs:
+            rows.append({"type": "go_to", "row_id": "", "edges": [c], "arg": [rng.choice(msgs)]})
+        elif x < 0.2:
+            rows.append({"type": rng.choice(["hard_exit", "loose_exit"]), "row_id": "", "edges": [c]})
+        else:
+            rid = "m%d" % len(rows)
+            rows.append({"type": "send_message", "row_id": rid, "edges": [c], "arg": "message " + rid})
+            msgs.append(rid)
+    return rows, base, g
 
 
 # ---------------------------------------------------------------- sugar: loops, blocks, include_if
